@@ -13,3 +13,4 @@ import VibeProof.Props.C26
 #print axioms VibeProof.C26.C26_grant_effective
 #print axioms VibeProof.C26.C26_revoke_effective
 #print axioms VibeProof.C26.C26_code_tables
+#print axioms VibeProof.C26.C26_truncate_needs_delete_on_every_table
